@@ -367,5 +367,5 @@ def run(ctx):
         for o_ in ("error", "warning", "silent"):
             judge(ctx, {"kind": "config_isolation", "global": g_, "other": o_})
     ctx.exhaustive["configuration pool: 9 keys x 12 values x 3 ways of setting"] = {"complete": True}
-    per = 200 if ctx.tier == "quick" else 2000
+    per = 200 if ctx.tier == "quick" else 5000
     ctx.parallel(_worker, [(k, per) for k in range(core.NPROC)])
